@@ -38,7 +38,11 @@ RULE = ('cases = calls of the real functions. Exhaustive A: every non-constant s
         'n_cyc in 10^U(-1,1.5) (a_ref relative to the record maximum or absolute); options as python floats, numpy scalars, '
         '0-d arrays, python ints (b=1, cut_off=0, integral a_ref / n_cyc), b as ndarray / list / tuple; every third driver '
         'call by keyword, the others positionally; the same object for both components; back-to-back calls on two inputs of '
-        'one shape with the first result re-read afterwards. distinct = digest(series, container); non-trivial = '
+        'one shape with the first result re-read afterwards. Audit round 2: record shapes alternation (+offset) / single '
+        'step / single impulse / trend and monotone / one-sided negative / tail-heavy / one spike 1e3..1e12 times the other '
+        'steps (first, last or inner sample); array b of 1, 2, 3, 5, 31..33, 63..65, 127..129, 256 entries (unsorted, '
+        'descending, repeated), permuted; one record x exponent matrix > 2**22 entries on every eighth shard (thorough: '
+        'every second). distinct = digest(series, container); non-trivial = '
         'non-constant series.')
 ASSUMPTIONS = ['NaN-free real input of any real dtype and container (integers of magnitude <= 2**53 so that the float64 '
                'oracle holds the same numbers); constant series are not judged',
@@ -55,36 +59,43 @@ ASSUMPTIONS = ['NaN-free real input of any real dtype and container (integers of
                'smallest step is >= 1000 ulps of the shifted values',
                'argument purity: every ndarray / list argument is compared bit-for-bit (dtype, shape, bytes) before and '
                'after each monitored call; the oracles read the arguments only after that comparison succeeded',
-               'array b for the combined function is documented as float and not judged']
+               'array b for the combined function is documented as float and not judged',
+               'zero-off-peaks is exact except inside a plateau created by the rounding of x - x[0] (samples closer than 2 '
+               'ulps of the largest rebased value) that contains a turning point: valid for any dynamic range',
+               'no int()/floor()/ceil() of a float quotient occurs in the six anchored functions (audit item 9 not applicable); '
+               'they have no object-level entry point (items 12, 13: only AccSignal.values as an argument, judged by purity)']
 EXHAUSTIVE = {'quick': '{0..4}^n, n=2..7 x {float, shifted -2} (+ int for n<=6) x {delta, pseudo-cyclic}; {-2..2}^n, n=2..5 x cycle/amplitude',
               'thorough': '{0..4}^n, n=2..8 x {float, int, shifted -2} x {delta, pseudo-cyclic}; {-2..2}^n, n=2..6 x cycle/amplitude'}
-_MIN_QUICK = {'delta.sum|d|==TV': 115000, 'delta.|sum d|==|end-start|': 115000, 'delta.zero-off-peaks': 115000,
-              'delta.length': 115000, 'pseudo.length': 115000, 'pseudo.zero-off-peaks': 115000,
-              'pseudo.sum==TV/2+offset/2*sign(last move)': 115000, 'delta.shift-invariant': 50000,
-              'pseudo.shift-invariant': 50000, 'int-input==float-input': 21000, 'args.unchanged': 330000,
-              'ncyc==reference': 25000, 'ncyc.nondecreasing': 23000, 'ncyc.length': 23000, 'ncyc.accepts-sequences': 2000,
-              'amp==reference': 64000, 'amp.nondecreasing': 54000, 'amp.length': 54000,
-              'gm==sqrt(amp0*amp1)': 14000, 'gm.length': 12000, 'combined==reference': 11000, 'combined.length': 11000,
-              'combined.nondecreasing': 11000, 'inverse(cut_off=0)': 5800,
-              'inverse(cut_off>0)==a_ref*(S_all/S_kept)^b': 3900, 'amp.scales-linearly': 1800,
-              'ncyc.joint-scaling-invariant': 2200, 'combined(x,x)==2^b*amp(x)': 4500, 'gm(x,x)==amp(x)': 5000,
-              'gm(x,y)==sqrt(amp(x)*amp(y))': 1900, 'array-b column==scalar-b': 900, 'b.accepts-sequences': 1200,
-              'container-form==float64-array': 6500, 'option-form==plain-float': 3400,
-              'result.stable-after-next-call': 1900, 'long-record(>2**16) driven': 2}
-# thorough: the enumerations grow 5x (integer variants at every length), the random part 20x (about half of a run)
-_MIN_THOROUGH = {'delta.sum|d|==TV': 900000, 'delta.|sum d|==|end-start|': 900000, 'delta.zero-off-peaks': 900000,
-                 'delta.length': 900000, 'pseudo.length': 900000, 'pseudo.zero-off-peaks': 900000,
-                 'pseudo.sum==TV/2+offset/2*sign(last move)': 900000, 'delta.shift-invariant': 290000,
-                 'pseudo.shift-invariant': 290000, 'int-input==float-input': 500000, 'args.unchanged': 3000000,
-                 'ncyc==reference': 400000, 'ncyc.nondecreasing': 360000, 'ncyc.length': 360000,
-                 'ncyc.accepts-sequences': 40000, 'amp==reference': 1000000, 'amp.nondecreasing': 850000,
-                 'amp.length': 850000, 'gm==sqrt(amp0*amp1)': 240000, 'gm.length': 200000, 'combined==reference': 180000,
-                 'combined.length': 180000, 'combined.nondecreasing': 180000, 'inverse(cut_off=0)': 85000,
-                 'inverse(cut_off>0)==a_ref*(S_all/S_kept)^b': 55000, 'amp.scales-linearly': 35000,
-                 'ncyc.joint-scaling-invariant': 42000, 'combined(x,x)==2^b*amp(x)': 60000, 'gm(x,x)==amp(x)': 70000,
-                 'gm(x,y)==sqrt(amp(x)*amp(y))': 37000, 'array-b column==scalar-b': 18000, 'b.accepts-sequences': 23000,
-                 'container-form==float64-array': 125000, 'option-form==plain-float': 65000,
-                 'result.stable-after-next-call': 36000, 'long-record(>2**16) driven': 16}
+_MIN_QUICK = {'amp.length': 57000, 'amp.nondecreasing': 57000, 'amp.scales-linearly': 1800, 'amp==reference': 180000,
+              'args.unchanged': 340000, 'array-b column==scalar-b': 2400,
+              'array-b permutation==column permutation': 1400, 'b.accepts-sequences': 1200,
+              'combined(x,x)==2^b*amp(x)': 4500, 'combined.length': 10000, 'combined.nondecreasing': 10000,
+              'combined==reference': 10000, 'container-form==float64-array': 6600, 'delta.length': 110000,
+              'delta.shift-invariant': 51000, 'delta.sum|d|==TV': 110000, 'delta.zero-off-peaks': 110000,
+              'delta.|sum d|==|end-start|': 110000, 'gm(x,x)==amp(x)': 5000, 'gm(x,y)==sqrt(amp(x)*amp(y))': 1900,
+              'gm.length': 13000, 'gm==sqrt(amp0*amp1)': 54000, 'int-input==float-input': 21000,
+              'inverse(cut_off=0)': 5700, 'inverse(cut_off>0)==a_ref*(S_all/S_kept)^b': 3900,
+              'long-record(>2**16) driven': 2, 'matrix(n*nb>2**22) driven': 1, 'ncyc.accepts-sequences': 2100,
+              'ncyc.joint-scaling-invariant': 2200, 'ncyc.length': 24000, 'ncyc.nondecreasing': 24000,
+              'ncyc==reference': 65000, 'option-form==plain-float': 3400, 'pseudo.length': 110000,
+              'pseudo.shift-invariant': 51000, 'pseudo.sum==TV/2+offset/2*sign(last move)': 110000,
+              'pseudo.zero-off-peaks': 110000, 'result.stable-after-next-call': 1800}
+# thorough: the enumerations grow 5x (integer variants at every length), the random part 10x (about half of a run)
+_MIN_THOROUGH = {'amp.length': 520000, 'amp.nondecreasing': 520000, 'amp.scales-linearly': 18000,
+                 'amp==reference': 1700000, 'args.unchanged': 2600000, 'array-b column==scalar-b': 24000,
+                 'array-b permutation==column permutation': 14000, 'b.accepts-sequences': 11000,
+                 'combined(x,x)==2^b*amp(x)': 35000, 'combined.length': 97000, 'combined.nondecreasing': 97000,
+                 'combined==reference': 97000, 'container-form==float64-array': 63000, 'delta.length': 840000,
+                 'delta.shift-invariant': 260000, 'delta.sum|d|==TV': 840000, 'delta.zero-off-peaks': 840000,
+                 'delta.|sum d|==|end-start|': 840000, 'gm(x,x)==amp(x)': 40000,
+                 'gm(x,y)==sqrt(amp(x)*amp(y))': 19000, 'gm.length': 120000, 'gm==sqrt(amp0*amp1)': 520000,
+                 'int-input==float-input': 510000, 'inverse(cut_off=0)': 47000,
+                 'inverse(cut_off>0)==a_ref*(S_all/S_kept)^b': 32000, 'long-record(>2**16) driven': 8,
+                 'matrix(n*nb>2**22) driven': 4, 'ncyc.accepts-sequences': 20000,
+                 'ncyc.joint-scaling-invariant': 22000, 'ncyc.length': 220000, 'ncyc.nondecreasing': 220000,
+                 'ncyc==reference': 620000, 'option-form==plain-float': 33000, 'pseudo.length': 840000,
+                 'pseudo.shift-invariant': 260000, 'pseudo.sum==TV/2+offset/2*sign(last move)': 840000,
+                 'pseudo.zero-off-peaks': 840000, 'result.stable-after-next-call': 18000}
 MIN_EVALS = {'quick': _MIN_QUICK, 'thorough': _MIN_THOROUGH}
 CTX = None
 
